@@ -1256,7 +1256,9 @@ pub fn run_c03_cli(rep: &mut Report, tier: &str, seed: u64, model: &Model, bin: 
         for preset in ["csv", "tsv", "spc"] {
             for counts in [false, true] {
                 let recs = vec![gen::clean_seq(&mut r, 2 * k as usize + 3, gen::Flavor::Uniform), gen::clean_seq(&mut r, k as usize, gen::Flavor::Uniform)];
-                cases.push(CliCase { sub: Sub::Oligo { k, counts, header: true, preset: preset.into(), threads: 2, stdin: false }, recs, container: "fa".into() });
+                // one worker, two, several, and the automatic count (0)
+                let threads = *r.pick(&[1u64, 1, 2, 4, 0]);
+                cases.push(CliCase { sub: Sub::Oligo { k, counts, header: true, preset: preset.into(), threads, stdin: false }, recs, container: "fa".into() });
             }
         }
     }
